@@ -402,7 +402,8 @@ pub fn paths(max_len: usize) -> Vec<String> {
             segs.push(format!("{n}[{i}]"));
         }
     }
-    let mut out: Vec<String> = vec![];
+    // a later segment that is all digits is a name like any other (it does not index an array)
+    let mut out: Vec<String> = vec!["a.0".into(), "a.1".into(), "b.1".into(), "a.b.0".into(), "b.1.a".into(), "a.0.a".into()];
     let mut layer: Vec<String> = vec![String::new()];
     for _ in 0..max_len {
         let mut next = vec![];
@@ -595,6 +596,54 @@ pub fn run(tier: &str, seed: u64) -> i32 {
         report.merge(s);
     }
 
+    // keys whose segments hold blanks (`Event Data.Image Path`): the whole name addresses the field,
+    // never its first word
+    {
+        let o = |es: Vec<(&str, DocVal)>| DocVal::obj(es);
+        let docs: Vec<DObj> = vec![
+            DObj::default(),
+            DObj(vec![("a b".into(), DocVal::s("v"))]),
+            DObj(vec![("a".into(), DocVal::s("v"))]),
+            DObj(vec![("a".into(), DocVal::s("v")), ("b".into(), DocVal::s("v"))]),
+            DObj(vec![("a b".into(), o(vec![("c", DocVal::s("v"))]))]),
+            DObj(vec![("a".into(), o(vec![("c", DocVal::s("v"))]))]),
+            DObj(vec![("c".into(), o(vec![("a b", DocVal::s("v"))]))]),
+            DObj(vec![("c".into(), o(vec![("a", DocVal::s("v"))]))]),
+            DObj(vec![("a b".into(), o(vec![("c d", DocVal::s("v"))]))]),
+            DObj(vec![("a b".into(), o(vec![("c", DocVal::s("x"))])), ("a".into(), o(vec![("c", DocVal::s("v"))]))]),
+            DObj(vec![("a b".into(), DocVal::Int(1)), ("a".into(), DocVal::Int(2))]),
+        ];
+        for body in [
+            "    'a b': v\n", "    'a b.c': v\n", "    'c.a b': v\n", "    'a b.c d': v\n", "    'int(a b)': 1\n", "    'str(a b)': '1'\n",
+            "    'not(a b)': v\n", "    'all(a b)': [v, '*v*']\n", "    'a b':\n      c: v\n", "    c:\n      'a b': v\n",
+        ] {
+            let mk = |cond: &str| format!("detection:\n  A:\n{body}  condition: {cond}\ntrue_positives: []\ntrue_negatives: []\n");
+            let mut c = Case::new("c10.wide");
+            c.rules = vec![mk("A"), mk("not (A)")];
+            c.docs = docs.clone();
+            let out = judge(&c);
+            report.label("key_with_blanks");
+            report.record(&c, out);
+        }
+    }
+    // nested blocks on one holder, against objects and arrays of objects mixed with scalars
+    gen::drive(
+        &mut report,
+        7,
+        if tier == "thorough" { 60_000 } else { 2_000 },
+        || (gen::rule_nested_focus(true), prop::collection::vec((any::<u16>(), any::<u8>()), 24)),
+        |(rule, picks): &(crate::spec::RuleSpec, Vec<(u16, u8)>)| {
+            if !rule.well_formed() {
+                return vec![];
+            }
+            let mut c = Case::new("c10.wide");
+            c.rules = vec![rule.text(), rule.negated_text()];
+            c.docs = gen::nested_docs(rule, picks);
+            vec![c]
+        },
+        judge,
+        |_, rep| rep.label("nested_focus_rule"),
+    );
     // wide rules
     gen::drive(
         &mut report,
